@@ -313,6 +313,7 @@ func c09Templates() []c09Tpl {
 		{"join-separators-2", `s = "yz" * 20000000; len(join(["a", "b", "c", "d", "e", "f", "g", "h", "i", "j", "k", "l"], s))`, "mem", 100, 8000},
 		// extensions whose result is many times their arguments, and output captured for the function cache
 		{"amplify-regsub", `len(regsub("", "x" * 300000, "y" * 2000))`, "mem", 100, 20000},
+		{"amplify-regsubmany", `x = "ab" * 10000000; len(regsub("a", x, "zz"))`, "mem", 100, 20000},
 		{"amplify-sprintfshared", `len(sprintf("%v", ["x" * 1000000] * 500))`, "mem", 100, 20000},
 		{"amplify-jsonshared", `len(json(["x" * 1000000] * 500))`, "mem", 100, 20000},
 		{"amplify-sprintfwidth", `len(sprintf("%1000000d" * 500, [1] * 500))`, "mem", 100, 20000},
